@@ -213,4 +213,139 @@ theorem ext_setSurplus (s : St α) (v : α) : Ext s (s.setSurplus v) := Ext.of_a
 theorem mu_setSurplus (s : St α) (v : α) : mu (s.setSurplus v) = mu s := mu_of_skel rfl
 theorem sumHE_setSurplus (s : St α) (v : α) : sumHE (s.setSurplus v) = sumHE s := sumHE_of_skel rfl
 
+/-- like `loopN_total'`, the invariant being demanded only of rounds that continue -/
+theorem loopN_total2 (P : St α → Prop) (guard : St α → Bool) (body : St α → St α × Flow)
+    (hP : ∀ s, P s → guard s = true → (body s).2 = .cont → P (body s).1)
+    (hprog : ∀ s, P s → guard s = true → (body s).2 = .cont →
+      mu (body s).1 < mu s ∨ (body s).1.crash.isSome = true) :
+    ∀ (fuel : Nat) (s : St α), P s → 1 ≤ fuel → (s.crash.isSome = true ∨ mu s + 2 ≤ fuel) →
+      ∃ t, loopN guard body fuel s = some t := by
+  intro fuel
+  induction fuel with
+  | zero => intro s _ h1 _; omega
+  | succ n ih =>
+    intro s hPs _ hm
+    unfold loopN
+    by_cases hc : s.crash.isSome = true
+    · exact ⟨s, by simp [hc]⟩
+    · have hmu : mu s + 2 ≤ n + 1 := by
+        rcases hm with h | h
+        · exact absurd h hc
+        · exact h
+      by_cases hg : guard s = true
+      · simp only [hc, hg, if_true]
+        have hP' := hP s hPs hg
+        have hpr := hprog s hPs hg
+        cases hbody : body s with
+        | mk s' fl =>
+          rw [hbody] at hP' hpr
+          cases fl with
+          | brk => exact ⟨s', rfl⟩
+          | cont =>
+            apply ih s' (hP' rfl) (by omega)
+            rcases hpr rfl with h | h
+            · right; simp only at h; omega
+            · left; exact h
+      · exact ⟨s, by simp [hc, hg]⟩
+
+/-- what a loop returns: a state where the round invariant `P` holds and the loop had to stop (crash flag, guard), or the
+    result `Q` of a round that broke -/
+theorem loopN_result (P Q : St α → Prop) (guard : St α → Bool) (body : St α → St α × Flow)
+    (hP : ∀ s, P s → guard s = true → (body s).2 = .cont → P (body s).1)
+    (hQ : ∀ s, P s → guard s = true → (body s).2 = .brk → Q (body s).1) :
+    ∀ (fuel : Nat) (s t : St α), P s → loopN guard body fuel s = some t →
+      (P t ∧ (t.crash.isSome = true ∨ guard t = false)) ∨ Q t := by
+  intro fuel
+  induction fuel with
+  | zero => intro s t _ h; simp [loopN] at h
+  | succ n ih =>
+    intro s t hPs h
+    unfold loopN at h
+    by_cases hc : s.crash.isSome = true
+    · simp [hc] at h; cases h; left; exact ⟨hPs, Or.inl hc⟩
+    · by_cases hg : guard s = true
+      · simp only [hc, hg, if_true] at h
+        have hP' := hP s hPs hg
+        have hQ' := hQ s hPs hg
+        cases hbody : body s with
+        | mk s' fl =>
+          rw [hbody] at h hP' hQ'
+          cases fl with
+          | cont => exact ih _ _ (hP' rfl) h
+          | brk => simp at h; cases h; right; exact hQ' rfl
+      · simp [hc, hg] at h; cases h; left; exact ⟨hPs, Or.inr (by simpa using hg)⟩
+
+/-! ## every elected candidate still holds a quota after the ballots of several non-elected candidates are moved on -/
+theorem EHQ.transferAll (hA : LawfulArith A) {s : St α} (hI : Inv A s) (h : ElectedHoldQuota s)
+    (cids : List Nat) (rew : α → α) (hr : ∀ b ∈ s.ballots, 0 ≤ rew b.w) :
+    ElectedHoldQuota (Droop.transferAll A s cids rew) := by
+  have hskel := transferAll_skel A s cids rew
+  have hq : (Droop.transferAll A s cids rew).quota = s.quota := transferAll_quota A s cids rew
+  have hwf' : (Droop.transferAll A s cids rew).WF := WF_of_skel hskel.symm hI.wf
+  intro c1 hc1 he
+  rw [hq]
+  obtain ⟨c, hc, hsk⟩ := mem_of_skel_eq hskel hc1
+  have h1 := voteOf_of_mem hwf' hc1
+  have h2 := voteOf_of_mem hI.wf hc
+  have h3 := transferAll_voteOf A (lawfulAdd_of hA) s hI.bwf cids rew c1.cid
+  rw [h1, ← skel_cid hsk, h2] at h3
+  rw [h3]
+  have hce : c.st = .elected := (skel_st hsk).1.trans he
+  have hnn : 0 ≤ (s.ballots.map (contrib A s cids rew c.cid)).sum :=
+    sum_nonneg' _ _ (fun b hb => contrib_nonneg A hA s cids rew c.cid b (hr b hb))
+  linarith [h c hc hce]
+
+theorem EHQ.setVote_nonElected {s : St α} (h : ElectedHoldQuota s) (cid : Nat) (v : α)
+    (hne : ∀ c ∈ s.cands, c.cid = cid → c.st ≠ .elected) : ElectedHoldQuota (s.setVote cid v) := by
+  intro c' hc' he
+  show s.quota ≤ _
+  obtain ⟨c1, hc1, rfl⟩ := mem_upd.1 hc'
+  by_cases hcid : (c1.cid == cid) = true
+  · exfalso
+    simp only [hcid, if_true] at he
+    exact hne c1 hc1 (by simpa using hcid) he
+  · have hf : (c1.cid == cid) = false := by simpa using hcid
+    simp only [hf, Bool.false_eq_true, if_false] at he ⊢
+    exact h c1 hc1 he
+
+theorem nonElected_of_skel {s t : St α} (hsk : t.skel = s.skel) {cid : Nat}
+    (h : ∀ c ∈ s.cands, c.cid = cid → c.st ≠ .elected) : ∀ c ∈ t.cands, c.cid = cid → c.st ≠ .elected := by
+  intro c hc hcc
+  obtain ⟨c0, hc0, hsk0⟩ := mem_of_skel_eq hsk hc
+  rw [← (skel_st hsk0).1]; exact h c0 hc0 ((skel_cid hsk0).trans hcc)
+
+theorem EHQ.foldSetVote (l : List Nat) {s : St α} (h : ElectedHoldQuota s)
+    (hne : ∀ cid ∈ l, ∀ c ∈ s.cands, c.cid = cid → c.st ≠ .elected) :
+    ElectedHoldQuota (l.foldl (fun acc c => acc.setVote c A.zero) s) := by
+  induction l generalizing s with
+  | nil => exact h
+  | cons x xs ih =>
+    simp only [List.foldl_cons]
+    apply ih (EHQ.setVote_nonElected h x _ (hne x (by simp)))
+    intro cid hcid
+    exact nonElected_of_skel (setVote_skel s x A.zero) (hne cid (by simp [hcid]))
+
+theorem EHQ.transferDefeated (hA : LawfulArith A) {s : St α} (hI : Inv A s) (h : ElectedHoldQuota s) (cids : List Nat)
+    (verb : String) (hne : ∀ cid ∈ cids, ∀ c ∈ s.cands, c.cid = cid → c.st ≠ .elected) :
+    ElectedHoldQuota (Droop.transferDefeated A s cids verb) := by
+  unfold Droop.transferDefeated
+  dsimp only
+  apply EHQ.logAct
+  apply EHQ.foldSetVote A cids (EHQ.transferAll A hA hI h cids id (fun b hb => hI.wpos b hb))
+  intro cid hcid
+  exact nonElected_of_skel (transferAll_skel A s cids id) (hne cid hcid)
+
+/-- `c.elect(msg)` on a candidate who is hopeful or already elected keeps the record moving forward -/
+theorem Mon.electNP {s : St α} (h : Mon s) (cid : Nat) (verb : String)
+    (hst : ∀ c ∈ s.cands, c.cid = cid → c.st = .hopeful ∨ c.st = .elected) : Mon (s.elect A cid verb false) := by
+  unfold St.elect
+  apply Mon.logAct
+  refine Mon.upd_forward h cid _ ?_ ?_
+  · intro c; rfl
+  intro c hc hcid
+  unfold Cand.code fwd
+  rcases hst c hc hcid with hs | hs
+  · simp [hs]
+  · simp only [hs]; split <;> simp
+
 end Droop
